@@ -467,6 +467,14 @@ func (m Mesh) ScanPrimitivesParallelWithPoolSize(size int, f func(i int, p Primi
 		return m.ScanPrimitives(f)
 	}
 
+	// Reject unimplemented topologies here: a panic on a worker goroutine can not be recovered by
+	// the caller and ends the program, unlike the panic ScanPrimitives raises for the same mesh.
+	switch m.topology {
+	case TriangleTopology, PointTopology, LineStripTopology:
+	default:
+		panic(fmt.Errorf("unimplemented topology: %s", m.topology.String()))
+	}
+
 	var wg sync.WaitGroup
 
 	totalWork := m.PrimitiveCount()
